@@ -10,7 +10,7 @@ DIR_MODES = [0o755, 0o555, 0o666, 0o000, 0o311, 0o700]
 FILE_MODES = [0o644, 0o600, 0o444, 0o000, 0o755]
 OPS = ["uncached", "cached-delete", "trait-recreate", "trait-migrate-recreate"]
 LINK_KINDS = ["in-file", "in-dir", "sib-file", "sib-dir", "canary-file", "canary-dir", "abs-canary-file", "abs-canary-dir", "dangling", "self", "mutual", "up", "layers-root"]
-TOP_KINDS = ["dir", "dir", "dir", "link-sibling-dir", "link-canary-dir", "link-canary-file", "link-dangling", "link-abs-canary-dir"]
+TOP_KINDS = ["dir", "dir", "dir", "link-sibling-dir", "link-canary-dir", "link-canary-file", "link-dangling", "link-abs-canary-dir", "link-canary-empty-dir", "link-sibling-empty-dir"]
 
 
 def build_tree(r, d, depth, links, stats):
@@ -41,6 +41,7 @@ def make_case(r, root, op):
     # canary tree (beside <layers>) and a sibling layer, with their own odd modes
     for base, tag in ((canary, b"canary"), (os.path.join(layers, "sib"), b"sibling")):
         os.makedirs(os.path.join(base, "d", "inner"), exist_ok=True)
+        os.makedirs(os.path.join(base, "empty"), exist_ok=True)
         for rel, mode in (("precious", 0o600), ("d/file", 0o444), ("d/inner/deep", 0o640), ("ro", 0o400)):
             with open(os.path.join(base, rel), "wb") as f:
                 f.write(tag + b":" + rel.encode())
@@ -61,7 +62,7 @@ def make_case(r, root, op):
         chmods.append(("chmod", ldir, r.choice([0o755, 0o555, 0o700, 0o311])))
     else:
         tgt = {"link-sibling-dir": "sib/d", "link-canary-dir": "../canary/d", "link-canary-file": "../canary/precious", "link-dangling": "nowhere",
-               "link-abs-canary-dir": os.path.join(canary, "d")}[top]
+               "link-abs-canary-dir": os.path.join(canary, "d"), "link-canary-empty-dir": "../canary/empty", "link-sibling-empty-dir": "sib/empty"}[top]
         os.symlink(tgt, ldir)
     kinds = set()
     for p, kind in links:
@@ -98,7 +99,8 @@ def request_for(op, name):
         return {"op": "uncached", "name": name, "build": True, "launch": False}
     if op == "cached-delete":
         return {"op": "cached", "name": name, "build": True, "launch": True, "mtype": "generic", "restored": {"action": "delete", "cause": "c"}, "invalid": {"action": "delete", "cause": "i"}}
-    res = {"metadata_value": "new", "env": None, "exec_d": [], "sboms": [], "write_files": [], "delete_files": []}
+    # the re-created layer gets content: anything written through a surviving link would land outside
+    res = {"metadata_value": "new", "env": [["all", "override", "544f4f4c", "31"]], "exec_d": [], "sboms": [], "write_files": [["bin/tool", "2321"]], "delete_files": []}
     if op == "trait-recreate":
         return {"op": "handle", "name": name, "impl": "v1", "types": {"launch": True, "build": False, "cache": True}, "strategy": "recreate",
                 "migrate": {"action": "recreate", "metadata_value": "m"}, "create": res, "update": res}
@@ -171,7 +173,7 @@ def run_case(base, idx, seed, op, shim, sh):
                 sh.violation("toml-link-remains", "%s returned Ok but %s.toml is still the old symlink" % (what, name), case)
                 return
             v = vp.snapshot(ldir)
-            leftovers = [k for k in v if not (k.split(b"/")[0] in (b"env", b"env.build", b"env.launch"))]
+            leftovers = [k for k in v if not (k.split(b"/")[0] in (b"env", b"env.build", b"env.launch", b"bin"))]
             if leftovers or not os.path.isdir(ldir) or os.path.islink(ldir):
                 sh.violation("old-entries-remain", "%s returned Ok but the layer still holds %r (is link: %s)" % (what, leftovers[:5], os.path.islink(ldir)), case)
                 return
